@@ -5,6 +5,7 @@ import (
 	"fmt"
 	"os"
 	"sort"
+	"time"
 )
 
 type Ctx struct {
@@ -64,6 +65,11 @@ func main() {
 		ctx.R.Notes = append(ctx.R.Notes, fmt.Sprintf("change-directed search: %d function(s) differ from the tree the model was transcribed from %v; dictionary: %d strings %v, %d sizes %v",
 			len(changedFuncs), cf, len(hotStrings), hotStrings, len(hotInts), hotInts))
 	}
+	limit := 60 * time.Second
+	if *tier == "thorough" {
+		limit = 180 * time.Second
+	}
+	startWatchdog(ctx, *out, limit)
 	err = run(ctx)
 	ctx.R.ModelReqs = m.Requests
 	ctx.R.OracleCalls = m.OracleCalls
